@@ -3,6 +3,7 @@ package checks
 import (
 	"bytes"
 	"fmt"
+	"strings"
 
 	"verifharness/internal/corpus"
 	"verifharness/internal/fw"
@@ -30,6 +31,9 @@ func init() {
 			{Name: "styles", N: constN(2500, 80000), Gen: genModelCase, Eval: c05EvalStyles},
 			{Name: "single", N: constN(250, 6000), Gen: genModelCase, Eval: c05EvalSingle},
 			{Name: "corpus", N: func(string) int { return len(corpus.All()) }, Gen: c05GenCorpus, Eval: c05EvalCorpus},
+			{Name: "comment-after-body", N: func(string) int { return len(c05Bodies) * len(c05Comments) }, Gen: func(r *xrand.Rand, idx int, tier string) *fw.Case {
+				return &fw.Case{Ints: map[string]int{"i": idx}, Docs: []run.Doc{{}}}
+			}, Eval: c05EvalCommentAfterBody},
 		},
 		Floors: map[string]int64{"pairs_compared": 15000, "accepted_bases": 1500},
 	})
@@ -236,4 +240,43 @@ func c05EvalCorpus(t *fw.T, c *fw.Case) {
 func dropCR(b []byte) []byte {
 	b = bytes.ReplaceAll(b, []byte(`\r\n`), []byte(`\n`))
 	return bytes.ReplaceAll(b, []byte(`\r`), []byte(`\n`))
+}
+
+// a comment line directly after a body: the schema dependency measures a schema body including trailing comments,
+// so these positions are read by it and not by this library's comment states.
+var c05Bodies = [][2]string{
+	{"schema", "JSIGHT 0.3\nTYPE @t\n  {\"a\": 1}\n%sGET /a\n  200 any\n"},
+	{"schema-nested", "JSIGHT 0.3\nGET /a\n  Query\n    {\"q\": 1}\n%s  200 any\n"},
+	{"enum", "JSIGHT 0.3\nENUM @e\n  [1, 2]\n%sGET /a\n  200 any\n"},
+	{"regex", "JSIGHT 0.3\nTYPE @r regex\n  /ab/\n%sGET /a\n  200 any\n"},
+	{"reference", "JSIGHT 0.3\nTYPE @t\n  1\nGET /a\n  200 @t\n%s  404 any\n"},
+}
+
+var c05Comments = []string{"#\n", "  #\n", "##\n", "######\n", "# x\n", "###\nx\n###\n", "#\r\n", "# # #\n", "###x###\n"}
+
+func c05EvalCommentAfterBody(t *fw.T, c *fw.Case) {
+	i := c.Ints["i"]
+	body := c05Bodies[i%len(c05Bodies)]
+	cm := c05Comments[(i/len(c05Bodies))%len(c05Comments)]
+	base := strings.Replace(body[1], "%s", "", 1)
+	with := strings.Replace(body[1], "%s", cm, 1)
+	db, dw := run.Single([]byte(base)), run.Single([]byte(with))
+	c.Docs = []run.Doc{db, dw}
+	ob, ow := t.Exec(db), t.Exec(dw)
+	t.Count("pairs_compared")
+	t.Count("comment_after_body_pairs")
+	if ob.Outcome != run.Accepted {
+		t.Violation("template-rejected", describe(ob))
+		return
+	}
+	if ow.Outcome != ob.Outcome || !bytes.Equal(ow.JSON, ob.JSON) {
+		what := "catalog-changes"
+		if ow.Outcome != ob.Outcome {
+			what = "verdict-changes"
+		}
+		t.Violation(fmt.Sprintf("comment-after-%s-body:%q:%s", body[0], strings.TrimRight(cm, "\r\n"), what),
+			fmt.Sprintf("a comment line %q directly after a %s body changes the result: %s\n--- with the comment\n%s", cm, body[0], describe(ow), with))
+		return
+	}
+	t.Distinct("comment-after-body " + body[0] + " " + cm)
 }
